@@ -279,7 +279,7 @@ PROPS = {
         "harness": "C06.c", "flavor": "asan", "engine": "E-A netsim",
         "tiers": {"quick": {"budget_s": 600}, "thorough": {"budget_s": 2400}},
         "coverage": cov_c06,
-        "level_text": "The real client (ASan+UBSan build) runs its real handshake and tunnel loop against the real server. At every answer on its way to the client the explorer forks one child per item of a hostile menu derived from that honest answer (400-1000 items: truncations, header/count/RCODE/id changes, RDLENGTH and type changes, pointer loops, TXT chunkings and all 256 codec prefix bytes, hostname label and preference abuse, 250+ record sets, genuine answers built by the server's real writer carrying every step-specific payload, oversized bodies and every data-header combination, raw frames); the child delivers the item instead and the run continues honestly, so every later handshake step and the tunnel phase still execute. No sanitizer report, no crash, no wall-clock overrun in any execution; an answer whose DNS id matches none of the client's three latest queries must cause no tun write and leave the client's reassembly state unchanged.",
+        "level_text": "The real client (ASan+UBSan build) runs its real handshake and tunnel loop against the real server. At every answer on its way to the client the explorer forks one child per item of a hostile menu derived from that honest answer (400-1000 items: truncations, header/count/RCODE/id changes, RDLENGTH and type changes, pointer loops, TXT chunkings and all 256 codec prefix bytes, hostname label and preference abuse, 250+ record sets, genuine answers built by the server's real writer carrying every step-specific payload, oversized bodies and every data-header combination, raw frames); the child delivers the item instead and the run continues honestly, so every later handshake step and the tunnel phase still execute. No sanitizer report, no crash, no wall-clock overrun in any execution; an answer whose DNS id matches none of the client's three latest queries must cause no tun write and leave the client's reassembly state unchanged; and ('ignored means ignored') at every answer ten further children first deliver an unmatched answer carrying a long payload of a chosen filler ('9', 'A', 0xff, '-', zeros, ...) and then the honest answer: the run must end in exactly the final state (handshake result, negotiated settings, commands run, packets delivered) of the honest run.",
         "level_note": "One substitution per execution (deviation bound 1); sequences of two hostile answers are not explored. Menu families, not all byte strings. The documented give-up paths (errx(4) on failed IP/MTU set-up, handshake failure) are allowed outcomes.",
         "technique": "stateless model checking of the real client+server in a virtual world: at every answer, exhaustive substitution from a hostile menu (deviation bound 1, fork-at-choice-point), sanitizer oracle",
         "assumptions": EA_ASSUME,
